@@ -6,6 +6,7 @@
   run.py digest <id> <tier> <root seed> <i,j,k>     (used by the determinism self-test)
   run.py setup
   run.py selftest
+  run.py cover [N] [ids]                           (lines of srctools executed by each check; tools/coverage_lines.json)
 """
 from __future__ import annotations
 
@@ -72,6 +73,10 @@ def main(argv: list) -> int:
         core.install_determinism_seams()
         from tools import mkcorpus
         return mkcorpus.main()
+    if cmd == 'cover':
+        core.install_determinism_seams()
+        from tools import covreport
+        return covreport.main(argv[1:])
     if cmd == 'selftest':
         from sim import setup
         return setup.selftest()
